@@ -28,6 +28,7 @@ REQUIRED_COUNTERS = ['marker_files_checked', 'pair_gene_decisions',
                      'holm_running_max_decides',
                      'gene_list_approx_floors_off_cases',
                      'references_with_an_unexpressed_gene_block',
+                     'zero_variance_genes_kept_out_by_p_convention',
                      'marker_tables_over_200_entries_at_tiny_budget',
                      'recorded_markers_judged', 'strict_markers_expected',
                      'pmask_files_checked', 'rename_pairs_compared',
@@ -44,8 +45,11 @@ RULE = ('case = generated reference (cluster sizes from 1 up, zero-variance '
         'recorded and one pair without markers or with a direction split; '
         'distinct = distinct (n leaves, n genes, thresholds, mode) tuples')
 ASSUMPTIONS = [
-    'don\'t-care: Welch undefined (both variances zero and means differ is '
-    'decided as p = 0; equal means as p = 1), Holm p within 1e-6 relative '
+    'Welch undefined (no variance in either cluster): p = 1, the '
+    'convention the property\'s mechanism list names ("NaN -> 0.5" for the '
+    'CDF); checked only where the harness engineered exact statistics, '
+    'don\'t-care elsewhere (rounding of sum / sumsq decides); Holm p '
+    'within 1e-6 relative '
     'of the threshold, scores within 1e-9 of a threshold or floor, mean '
     'difference below 1e-12 for the direction',
     'statistics are produced by the pipeline\'s own stage (checked by C09)',
@@ -67,6 +71,10 @@ def gen_cases(tier, seed):
             c['force'] = 'list-approx-nofloors'
         if i % 4 == 2:
             c['dead_block'] = True
+        if i % 6 == 3:
+            # genes with exactly zero variance in both clusters of a pair
+            # and different means (statistics engineered to exact values)
+            c['zero_var'] = True
         if i % 6 == 5:
             # many entries + a budget of a few bytes: the gene-major tables
             # are built in several windows
@@ -172,7 +180,7 @@ def holm(p, own_out=None):
     return adj
 
 
-def oracle_pair(Va, Vb, Ra, Rb):
+def oracle_pair(Va, Vb, Ra, Rb, exact_zero=None):
     """
     Va, Vb: per-cell log2cpm (cells x genes); Ra, Rb raw counts.
     returns dict of per-gene arrays
@@ -205,16 +213,25 @@ def oracle_pair(Va, Vb, Ra, Rb):
         v2 = Vb.var(axis=0, ddof=1)
         both_zero = (v1 < 1e-20) & (v2 < 1e-20)
         p = np.where(np.isfinite(p), p, 1.0)
-        p = np.where(both_zero & (np.abs(m1 - m2) > 1e-9), 0.0, p)
-        p = np.where(both_zero & (np.abs(m1 - m2) <= 1e-9), 1.0, p)
+        # Welch is undefined when neither cluster has any variance; the
+        # convention of the code under test (named in the property's
+        # mechanism list: "NaN -> 0.5" for the CDF) is p = 1, i.e. such a
+        # gene is never a marker
+        p = np.where(both_zero, 1.0, p)
         out['p_raw'] = p
         out['own'] = np.zeros(len(p))
         out['p'] = holm(p, out['own'])
-        out['fragile_p'] = both_zero & (np.abs(m1 - m2) > 0) & \
-            (np.abs(m1 - m2) <= 1e-6)
+        # ... but whether the *statistics file* yields a variance of exactly
+        # zero depends on rounding in sum / sumsq, so the decision is only
+        # checked where the harness engineered exact values (exact_zero)
+        ez = np.zeros(Va.shape[1], dtype=bool) if exact_zero is None \
+            else np.asarray(exact_zero, dtype=bool)
+        out['both_zero_exact'] = both_zero & ez
+        out['fragile_p'] = both_zero & ~ez & (np.abs(m1 - m2) > 0)
     else:
         out['p'] = np.ones(Va.shape[1])
         out['own'] = np.ones(Va.shape[1])
+        out['both_zero_exact'] = np.zeros(Va.shape[1], dtype=bool)
         out['fragile_p'] = np.zeros(Va.shape[1], dtype=bool)
     return out
 
@@ -349,6 +366,12 @@ def judge(ctx, tag, d, names, genes, oracles_by_pair, th, gene_list,
                          and fold >= th['log2_fold_min_th'])
             if strict:
                 ctx.bump('strict_markers_expected')
+            if o['both_zero_exact'][j] and abs(o['diff'][j]) > 1e-9 and \
+                    in_list and q1 > th['q1_th'] and qd > th['qdiff_th'] \
+                    and fold > th['log2_fold_th']:
+                # no variance in either cluster, different means, every
+                # score passed: only the p = 1 convention keeps it out
+                ctx.bump('zero_variance_genes_kept_out_by_p_convention')
             if not small and in_list and o['own'][j] < th['p_th'] <= p \
                     and not near_p and q1 > th['q1_th'] and \
                     qd > th['qdiff_th'] and fold > th['log2_fold_th']:
@@ -426,6 +449,19 @@ def run_case(spec, work):
         ctx.bump('references_with_an_unexpressed_gene_block')
     genes = gen.gene_names(rng, n_genes)
     ref = work / 'ref.h5ad'
+    zv = None
+    if spec.get('zero_var'):
+        lab0 = np.array(labels)
+        big = [nm for nm in names if (lab0 == nm).sum() >= 2]
+        if len(big) >= 2:
+            a, b = [str(x) for x in rng.choice(big, size=2, replace=False)]
+            gsel = [int(x) for x in rng.choice(
+                n_genes, size=min(3, n_genes), replace=False)]
+            for g in gsel:
+                X[lab0 == b, g] = 0.0          # log2(CPM+1) = 0 exactly
+                X[lab0 == a, g] = rng.integers(
+                    150, 400, size=int((lab0 == a).sum())).astype(float)
+            zv = (a, b, gsel)
     write_ref(ref, X, labels, genes, rng)
     stats = work / 'stats.h5'
     try:
@@ -437,10 +473,31 @@ def run_case(spec, work):
                 'counters': {}, 'features': ['raised'], 'nontrivial': True}
     V = gen.log2cpm(X)
     lab = np.array(labels)
+    if zv is not None:
+        # cluster a: the statistics of the chosen genes are rewritten to
+        # those of a constant 2.5 (sum = n x 2.5, sumsq = n x 6.25: exact
+        # in binary floating point), and the oracle sees the same cells
+        za, zb, gsel = zv
+
+        def engineer(path, cluster):
+            with h5py.File(path, 'a') as f:
+                c2r = json.loads(f['cluster_to_row'][()].decode())
+                ra = c2r[cluster]
+                na = int(f['n_cells'][ra])
+                for g in gsel:
+                    f['sum'][ra, g] = na * 2.5
+                    f['sumsq'][ra, g] = na * 6.25
+        engineer(stats, za)
+        for g in gsel:
+            V[lab == za, g] = 2.5
     orc = {}
     for a, b in itertools.combinations(sorted(names), 2):
+        ez = None
+        if zv is not None and {a, b} == {zv[0], zv[1]}:
+            ez = np.zeros(n_genes, dtype=bool)
+            ez[zv[2]] = True
         orc[(a, b)] = oracle_pair(V[lab == a], V[lab == b],
-                                  X[lab == a], X[lab == b])
+                                  X[lab == a], X[lab == b], exact_zero=ez)
     th = {'p_th': float(rng.choice([0.01, 0.05, 0.001])),
           'q1_min_th': float(rng.choice([0.05, 0.1, 0.3])),
           'qdiff_min_th': float(rng.choice([0.05, 0.1, 0.3])),
@@ -554,6 +611,8 @@ def run_case(spec, work):
         write_ref(ref_r, X, [ren[l] for l in labels], genes, rng)
         stats_r = work / 'stats_r.h5'
         stats_for(ref_r, stats_r, tmp)
+        if zv is not None:
+            engineer(stats_r, ren[zv[0]])
         out_r = work / 'refm_r.h5'
         direct(out_r, n_proc, max_gb, stats_path=stats_r,
                tr=TaxonomyTree.from_precomputed_stats(stats_r))
